@@ -98,7 +98,7 @@ def bad(draw):
     if sum(ws) == 0:
         ws[0] = 1
     kind = draw(st.sampled_from(["both", "long", "short", "zero", "negative", "nan", "inf", "long-cum", "short-cum", "zero-cum",
-                                 "neg-cum", "inf-cum", "overflow", "overflow", "nan-cum", "empty", "empty-cum"]))
+                                 "neg-cum", "inf-cum", "overflow", "overflow", "nan-cum", "empty", "empty-cum", "neg-inside", "neg-inside-cum"]))
     return {"kind": kind, "id": draw(st.text(max_size=8)), "pop": [draw(_vals) for _ in range(n)], "tuple": draw(st.booleans()),
             "ws": ws, "unhashable": draw(st.integers(0, 3)) == 0, "wtuple": draw(st.integers(0, 2)) == 0}
 
@@ -243,6 +243,11 @@ def judge(case):
             kw = {"weights": [0] * n}
         elif kind == "negative":
             kw = {"weights": [-w - 1 for w in ws]}
+        elif kind == "neg-inside":
+            # a negative entry after a positive one that brings the total to zero or below: a non-positive total all the same
+            kw = {"weights": [2, -2] + [0] * (n - 2)} if n >= 2 else {"weights": [-1]}
+        elif kind == "neg-inside-cum":
+            kw = {"cum_weights": [2] + [0] * (n - 1)} if n >= 2 else {"cum_weights": [-1]}
         elif kind == "nan":
             kw = {"weights": ws[:-1] + [float("nan")]}
         elif kind == "inf":
@@ -285,7 +290,7 @@ def judge(case):
             rest = {k: v for k, v in kw.items() if k != "weights"}
             forms.append((" [weights passed positionally]", lambda: dc(case["id"], pop, kw["weights"], **rest)))
             forms.append((" [weights positionally, through functools.partial]", lambda: functools.partial(dc, case["id"], pop, kw["weights"])(**rest)))
-        if kind not in ("negative", "neg-cum"):
+        if kind not in ("negative", "neg-cum", "neg-inside", "neg-inside-cum"):
             # the id-less (random) branch documents the same refusals (those of random.choices); a negative weight inside a
             # positive total is the one thing random.choices does not look at
             forms.append((" [without an id]", lambda: dc(None, pop, **kw)))
@@ -379,6 +384,8 @@ def judge_dyadic(case):
 
 
 def judge_case(record):
+    if record["case"].get("neg"):
+        return judge_negative_inside(record["case"])["viol"]
     if record["case"].get("kind") == "dyadic":
         return judge_dyadic(record["case"])["viol"]
     part = record.get("part", "")
@@ -393,11 +400,32 @@ def selftest():
 
 def optimised_cases():
     out = []
-    for kind in ["both", "long", "short", "zero", "negative", "nan", "inf", "long-cum", "short-cum", "zero-cum", "neg-cum", "inf-cum", "overflow", "nan-cum", "empty", "empty-cum"]:
+    for kind in ["both", "long", "short", "zero", "negative", "nan", "inf", "long-cum", "short-cum", "zero-cum", "neg-cum", "inf-cum", "overflow", "nan-cum", "empty", "empty-cum", "neg-inside", "neg-inside-cum"]:
         for pop, ws in (([1, "a", None], [1, 2, 3]), ([0], [5]), (["x", "y"], [0, 4])):
             out.append({"kind": kind, "id": "u-%s" % kind, "pop": pop, "tuple": False, "ws": ws})
     out.append({"kind": "good", "id": "unit-1", "pop": [1, 2, 3], "tuple": True, "ws": [1, 0, 2.5], "c": 3, "seed": 1})
     return out
+
+
+def judge_negative_inside(case):
+    """weights with a negative entry but a positive total are not refused (random.choices does not look either); whatever they
+    select, the weights form and its accumulated form are one and the same call"""
+    dc = sut.binning().deterministic_choice
+    ws = case["ws"]
+    cum = list(itertools.accumulate(ws))
+    pop = list(range(len(ws)))
+    viol = []
+    for j in range(300):
+        uid = "neg-%d" % j
+        try:
+            a, b = dc(uid, pop, ws), dc(uid, pop, cum_weights=cum)
+        except Exception as e:
+            viol.append("weights %r (positive total) raised %s: %s" % (ws, type(e).__name__, e))
+            break
+        if a != b:
+            viol.append("id %r: weights=%r selects #%r, cum_weights=%r (their running totals) selects #%r" % (uid, ws, a, cum, b))
+            break
+    return {"viol": viol, "nontrivial": True, "tags": ["negative-entry-positive-total"], "key": ["neg", ws], "sample": {"weights": ws}}
 
 
 def fixed_good():
@@ -414,6 +442,9 @@ def fixed_good():
 def run(ctx, rec):
     if ctx.shard == 0:
         runner.direct_run(ctx, rec, "hand-written-shapes", fixed_good(), judge)
+        if rec.violations:
+            return
+        runner.direct_run(ctx, rec, "negative-entry-inside-a-positive-total", [{"neg": True, "ws": ws} for ws in ([4, -1, 2, 1], [3, -2.5, 1, 0.5], [1, 1, -1, 1], [5, -1], [0.5, -0.25, 0.25, 8])], judge_negative_inside)
         if rec.violations:
             return
     if ctx.shard == 0:
